@@ -505,8 +505,16 @@ def gen_case (rng):
     if rng.random() < 0.3: case["inject_obj"] = True
     if via in BUFFERED and rng.random() < 0.3: case["release"] = "flow_mod"
   if allow_table and rng.random() < 0.5:
-    case["table_flow"] = [dict(type=5, dl_addr=b"\x0a" * 6),
-                          dict(type=0, port=3, max_len=0)]
+    # (what the entry does to the frame it is handed is its own business: the
+    #  rest of the packet_out's list goes on with the frame as it was)
+    case["table_flow"] = rng.choice([
+      [dict(type=5, dl_addr=b"\x0a" * 6), dict(type=0, port=3, max_len=0)],
+      [dict(type=7, nw_addr=0x01020304), dict(type=10, tp_port=80),
+       dict(type=0, port=3, max_len=0)],
+      [dict(type=1, vlan_vid=100), dict(type=2, vlan_pcp=7), dict(type=8, nw_tos=0x28),
+       dict(type=0, port=4, max_len=0)],
+      [dict(type=6, nw_addr=0xc0a80001), dict(type=9, tp_port=1),
+       dict(type=3), dict(type=0, port=3, max_len=0)]])
   return case
 
 
